@@ -7,6 +7,8 @@ CONSTANTS
   RemDeadMeansDead = FALSE
   CacheDeadOnFalse = FALSE
   RebuildRaises = FALSE
+  StaleAliveAfterKill = FALSE
+  HiddenDeadline = FALSE
   Hist = FALSE
   Cases <- FreeCases
 INVARIANT TypeOK
